@@ -46,6 +46,8 @@ def jobs_for(ctx, n):
                     q["limit"] = rng.choice([None, None, 1, 2, 3, 50])
                 reqs.append(q)
         reqs.append({"iface": "paths_seq", "split": 0, "shuffle": 0, "repeat": False, "filters": [rng.choice([0, 1, 2, 3, 9, None]) for _ in range(6)]})
+        reqs.append({"iface": "paths_seq", "split": 0, "shuffle": 0, "repeat": False, "seq": [
+            {"filter": rng.choice([None, None, None, 1, 2]), "shards": rng.choice([None, 1, 2, 3, 50]), "limit": rng.choice([None, None, 1, 2])} for _ in range(6)]})
         jobs.append({"dataset": spec, "requests": reqs})
     return jobs
 
@@ -86,10 +88,11 @@ def run(ctx):
             runs += 1
             one = {"dataset": job["dataset"], "requests": [q]}
             if q["iface"] == "paths_seq":
-                wants = [spec_select(shards, fv, None, None) for fv in q["filters"]]
+                seq = q.get("seq") or [{"filter": fv} for fv in q["filters"]]
+                wants = [spec_select(shards, x.get("filter"), x.get("shards"), x.get("limit")) for x in seq]
                 wants = ["error" if w is None else w for w in wants]
                 if o.get("error") or o.get("out") != wants:
-                    ctx.report("selection-depends-on-history", f"successive selections on one handle with predicates {q['filters']} on metadata {[m for _e, m in shards]}: "
+                    ctx.report("selection-depends-on-history", f"successive selections on one handle with options {[(x.get('filter'), x.get('shards'), x.get('limit')) for x in seq]} (predicate value, shards, limit) on metadata {[m for _e, m in shards]}: "
                                                                f"returned {o.get('out') or o.get('error')} expected {wants}", {"job": one})
                 continue
             want = spec_select(shards, q.get("filter"), q.get("shards"), q.get("limit"))
@@ -144,7 +147,7 @@ def run(ctx):
             "that the forwarded option has its effect inside tf.data / Rust is validated on the implementation only"],
         "evaluations": runs, "distinct_nontrivial": len(nontrivial),
         "rule": "datasets with metadata groups (3..12 shards, values 0..2) x {paths, sync, concurrent, async, rust, tf} x shards in {None,1,2,3,5,50} x predicate selecting none/some/all x "
-                "custom_metadata_type_limit in {None,1,2,3,50}; expected result = the property text evaluated on the independently decoded shard list",
+                "custom_metadata_type_limit in {None,1,2,3,50}, plus sequences of 6 selections (predicate / shards / limit) on ONE handle; expected result = the property text evaluated on the independently decoded shard list",
         "model_cases": len(mcases), "model_vs_impl_disagreements": dis, "traces_validated_against_impl": len(mcases) - dis,
     })
 
@@ -158,7 +161,8 @@ def replay(ctx, rp):
     q, o = job["requests"][0], r["results"][0]
     shards = r["reference"]["0"]["shards"]
     if q["iface"] == "paths_seq":
-        wants = ["error" if w is None else w for w in (spec_select(shards, fv, None, None) for fv in q["filters"])]
+        seq = q.get("seq") or [{"filter": fv} for fv in q["filters"]]
+        wants = ["error" if w is None else w for w in (spec_select(shards, x.get("filter"), x.get("shards"), x.get("limit")) for x in seq)]
         print(json.dumps({"metadata": [m for _e, m in shards], "expected": wants, "result": o}))
         return o.get("out") == wants
     want = spec_select(shards, q.get("filter"), q.get("shards"), q.get("limit"))
